@@ -411,8 +411,22 @@ func (t *TableEngine) bindBool(n ast.Node, st *tstate, k func(*tstate)) bool {
 			lhs, rhs = x.Names[0], x.Values[0]
 		}
 	}
-	if lhs == nil || !isCompoundBool(rhs) {
+	if lhs == nil {
 		return false
+	}
+	if !isCompoundBool(rhs) {
+		// v := w where w is a local boolean whose value is already bound
+		rid, ok := unparen(rhs).(*ast.Ident)
+		if !ok {
+			return false
+		}
+		ro, ok := t.p.ObjOf(rid).(*types.Var)
+		if !ok || ro.IsField() {
+			return false
+		}
+		if _, bound := st.env.bools[t.p.varKey(ro)]; !bound {
+			return false
+		}
 	}
 	id, ok := unparen(lhs).(*ast.Ident)
 	if !ok {
